@@ -19,6 +19,8 @@ structure Good (t : Transport) : Prop where
     neverData t o = true ∧ (after2 t c lm lo .read o).ok = true ∧ (after2 t c lm lo .read o).readLossOK' = true
   post_write : ∀ c lm lo o, (lm = .read ∨ lm = .write) → domain t lm lo = true → setsLoss t lo = true →
     domain t .write o = true → (after2 t c lm lo .write o).ok = true
+  post_close : ∀ c lm lo o, (lm = .read ∨ lm = .write) → domain t lm lo = true → setsLoss t lo = true →
+    domain t .close o = true → (after2 t c lm lo .close o).ok = true
   none_read : errMap t .read .none = .raiseS .notOpened
   none_write : errMap t .write .none = .raiseS .notOpened
   none_alive : errMap t .isalive .none = .retFalse
@@ -37,7 +39,7 @@ theorem good_of_total {t : Transport} (h : mapTotal t) : Good t := by
     rcases hlm with rfl | rfl
     · exact this.1
     · exact this.2
-  refine ⟨?_, ?_, ?_, ?_, ?_, ?_, ?_, hn1, hn2, hn3, fun c => hw c (Ctrl.mem_all c)⟩
+  refine ⟨?_, ?_, ?_, ?_, ?_, ?_, ?_, ?_, hn1, hn2, hn3, fun c => hw c (Ctrl.mem_all c)⟩
   · intro c m o hd
     have := hfresh c m o
     simp [freshOK, hd] at this
@@ -69,6 +71,11 @@ theorem good_of_total {t : Transport} (h : mapTotal t) : Good t := by
     simp [afterOK, hd, hs] at this
     have := this.1.2 o (Outcome.mem_all o)
     simpa [hdo] using this
+  · intro c lm lo o hlm hd hs hdo
+    have := hafter c lm lo hlm
+    simp [afterOK, hd, hs] at this
+    have := this.2 o (Outcome.mem_all o)
+    simpa [hdo] using this
 
 /-- invariant of the session state: the recorded loss is a detectable in-domain loss of a read or write -/
 def InvSt (t : Transport) (st : TState) : Prop :=
@@ -90,21 +97,33 @@ theorem tNext_inv {t : Transport} {st : TState} {m : Method} {o : Outcome} (hi :
   unfold tNext0
   by_cases hop : st.opened = true
   · simp only [hop, Bool.not_true, Bool.false_eq_true, ↓reduceIte]
+    have key : ∀ s1 : TState, InvSt t s1 → InvSt t (if m == .close then { s1 with opened := false } else s1) := by
+      intro s1 h1
+      split
+      · intro lm lo h; exact h1 lm lo h
+      · exact h1
+    apply key
     by_cases hc : (st.lossBy.isNone && (m == .read || m == .write) && setsLoss t o) = true
     · simp only [hc, ↓reduceIte]
       simp only [Bool.and_eq_true, Bool.or_eq_true, beq_iff_eq] at hc
-      have key : InvSt t { st with lossBy := some (m, o) } := by
+      intro lm lo h
+      simp at h
+      obtain ⟨rfl, rfl⟩ := h
+      exact ⟨hc.1.2, hd, hc.2⟩
+    · simp only [hc, Bool.false_eq_true, ↓reduceIte]
+      by_cases hu : eofUpgrade t st m o = true
+      · simp only [hu, ↓reduceIte]
         intro lm lo h
         simp at h
         obtain ⟨rfl, rfl⟩ := h
-        exact ⟨hc.1.2, hd, hc.2⟩
-      split
-      · intro lm lo h; exact key lm lo h
-      · exact key
-    · simp only [hc, Bool.false_eq_true, ↓reduceIte]
-      split
-      · intro lm lo h; exact hi lm lo h
-      · exact hi
+        unfold eofUpgrade at hu
+        cases hl : st.lossBy with
+        | none => simp [hl] at hu
+        | some x =>
+          obtain ⟨a, b⟩ := x
+          simp only [hl, Bool.and_eq_true] at hu
+          exact ⟨Or.inl rfl, hu.1.2, hu.2⟩
+      · simp only [hu, Bool.false_eq_true, ↓reduceIte]; exact hi
   · simp only [hop, Bool.not_false, ↓reduceIte]; simpa using hi
 
 theorem tNext_opened {t : Transport} {st : TState} {m : Method} {o : Outcome} (hm : m ≠ .close) :
@@ -112,15 +131,21 @@ theorem tNext_opened {t : Transport} {st : TState} {m : Method} {o : Outcome} (h
   rw [tNext_opened_eq]
   unfold tNext0
   by_cases hop : st.opened = true <;> simp [hop, hm]
-  split <;> simp [hop]
+  split
+  · simp [hop]
+  · split <;> simp [hop]
 
-theorem tNext_lossBy_some {t : Transport} {st : TState} {m : Method} {o : Outcome}
-    (h : st.lossBy.isSome = true) : (tNext t st m o).lossBy = st.lossBy := by
+/-- a recorded loss stays recorded (it may be replaced by `read×empty`) -/
+theorem tNext_isSome {t : Transport} {st : TState} {m : Method} {o : Outcome}
+    (h : st.lossBy.isSome = true) : (tNext t st m o).lossBy.isSome = true := by
   rw [tNext_lossBy_eq]
   unfold tNext0
-  have : st.lossBy.isNone = false := by cases hl : st.lossBy <;> simp_all
-  by_cases hop : st.opened = true <;> simp [hop, this]
-  split <;> rfl
+  have hn : st.lossBy.isNone = false := by cases hl : st.lossBy <;> simp_all
+  by_cases hop : st.opened = true <;> simp [hop, hn]
+  · split
+    · split <;> simp [h]
+    · split <;> simp [h]
+  · exact h
 
 /-- the recorded loss never disappears -/
 theorem tNext_isNone {t : Transport} {st : TState} {m : Method} {o : Outcome}
@@ -128,14 +153,14 @@ theorem tNext_isNone {t : Transport} {st : TState} {m : Method} {o : Outcome}
   cases hl : st.lossBy with
   | none => rfl
   | some x =>
-    have := @tNext_lossBy_some t st m o (by simp [hl])
-    rw [this, hl] at h; simp at h
+    have := @tNext_isSome t st m o (by simp [hl])
+    cases hh : (tNext t st m o).lossBy <;> simp_all
 
 /-- a read/write with a detectable loss outcome on an opened, not yet lost session records the loss -/
 theorem tNext_sets {t : Transport} {st : TState} {m : Method} {o : Outcome} (hm : m = .read ∨ m = .write)
     (hop : st.opened = true) (hs : setsLoss t o = true) : (tNext t st m o).lossBy.isSome = true := by
   cases hl : st.lossBy with
-  | some x => rw [tNext_lossBy_some (by simp [hl])]; simp [hl]
+  | some x => exact tNext_isSome (by simp [hl])
   | none =>
     rw [tNext_lossBy_eq]
     unfold tNext0
@@ -407,7 +432,7 @@ theorem dead_tNext {t : Transport} {st : TState} {m : Method} {o : Outcome} (hm 
     Dead (tNext t st m o) := by
   rcases h with h | h
   · left; rw [tNext_opened hm]; exact h
-  · right; rw [tNext_lossBy_some h]; exact h
+  · right; exact tNext_isSome h
 
 theorem fail_st (cf : Cfg) (st : TState) (a : Act) (n : Nat) : (cf.fail st a n).st = st := by
   cases a <;> rfl
@@ -430,7 +455,7 @@ theorem step_dead {t : Transport} (hg : Good t) {env : Env} (T : Nat) (cf : Cfg)
     intro st0 i hi hra
     by_cases hop : st0.opened = true
     · cases hl : st0.lossBy with
-      | some x => right; rw [tNext_lossBy_some (by simp [hl])]; simp [hl]
+      | some x => right; exact tNext_isSome (by simp [hl])
       | none =>
         rcases (hdead i hi).2 with hdat | hsl
         · exfalso
@@ -541,7 +566,7 @@ theorem allowed_of_ne_other {c : Cls} (h : c ≠ .other) : allowed c := by
   cases c <;> simp_all [allowed]
 
 theorem neverData_of_setsLoss {t : Transport} {o : Outcome} (h : setsLoss t o = true) : neverData t o = true := by
-  unfold setsLoss at h; simp only [Bool.and_eq_true] at h; exact h.1
+  unfold setsLoss at h; simp only [Bool.and_eq_true] at h; exact h.1.1
 
 theorem isalive_dead {t : Transport} (ht : mapTotal t) (ha : aliveTotal t) {st : TState} (hi : InvSt t st)
     (hdead : Dead st) : isaliveNow t st = .retFalse := by
@@ -570,5 +595,139 @@ theorem isalive_dead {t : Transport} (ht : mapTotal t) (ha : aliveTotal t) {st :
 
 theorem getD_ge {α : Type} (l : List α) (d : α) (i : Nat) (h : l.length ≤ i) : l.getD i d = d := by
   simp [List.getD, List.getElem?_eq_none h]
+
+/-! ### promptness: one read step on a dead session -/
+
+/-- what `promptTotal t` gives for the rows after a loss -/
+theorem prompt_rows {t : Transport} (hp : promptTotal t) (c : Ctrl) {lm : Method} {lo : Outcome}
+    (hlm : lm = .read ∨ lm = .write) (hd : domain t lm lo = true) (hs : setsLoss t lo = true) :
+    promptOK t c lm lo = true := by
+  unfold promptTotal promptTotalB at hp
+  simp only [List.all_eq_true, Bool.and_eq_true] at hp
+  have := hp c (Ctrl.mem_all c) lo (Outcome.mem_all lo)
+  rcases hlm with rfl | rfl
+  · exact this.1
+  · exact this.2
+
+theorem isRaiseS_cases {a : Act} (h : a.isRaiseS = true) : ∃ c, a = .raiseS c := by
+  cases a <;> simp_all [Act.isRaiseS]
+
+/-- rank of a session state: an upper bound for the number of reads a dead session can still absorb
+    without raising (3: nothing detected yet, 2: lost, 1: lost and every read raises, 0: closed) -/
+def Settled (t : Transport) (st : TState) : Prop :=
+  st.opened = false ∨ ∃ lm lo, st.lossBy = some (lm, lo) ∧ finalOK t st.ctrl lm lo = true
+
+theorem readOK_raise_ne_other {a : Act} {c : Cls} (h : a.readOK = true) (ha : a = .raiseS c) : c ≠ .other := by
+  subst ha; intro hc; subst hc; simp [Act.readOK] at h
+
+/-- **one read-loop iteration on a dead session**: it raises an allowed class, or it is absorbed once and
+    moves the session state strictly towards `Settled` -/
+theorem read_step_prompt {t : Transport} (hg : Good t) (hp : promptTotal t) {env : Env} (hd : InDomain t env)
+    (T : Nat) (cf : Cfg) (p : Program) (hprog : cf.prog = .r :: p) (hi : InvSt t cf.st)
+    (hs : setsLoss t (env cf.calls .read) = true) :
+    (∃ res c, step t env T cf = .inr res ∧ res.out = .raised c ∧ c ≠ .other ∧ res.calls ≤ cf.calls + 1) ∨
+    (∃ cf', step t env T cf = .inl cf' ∧ cf'.prog = .r :: p ∧ cf'.calls = cf.calls + 1 ∧ InvSt t cf'.st
+        ∧ ¬ Settled t cf.st ∧ (cf.st.lossBy.isSome = true → Settled t cf'.st) ∧ cf'.st.lossBy.isSome = true) := by
+  obtain ⟨prog, st, calls, ticks⟩ := cf
+  simp only at hprog hi hs
+  subst hprog
+  simp only [step]
+  by_cases hT : T ≤ ticks
+  · left
+    exact ⟨Cfg.timedOut ⟨.r :: p, st, calls, ticks⟩, .timeout, by simp [hT], rfl, by decide, by simp [Cfg.timedOut]⟩
+  · simp only [hT, ↓reduceIte]
+    have hdom := (hd calls).1
+    obtain ⟨hrok, hbusy, hnd, _⟩ := read_act hg hi hdom
+    have hinv := @tNext_inv t st .read (env calls .read) hi hdom
+    have hnever := neverData_of_setsLoss hs
+    have hloss := hnd hnever
+    -- the act is retEmpty, retEmptyBusy or raiseS
+    have hcases : tAct t st .read (env calls .read) = .retEmpty ∨ tAct t st .read (env calls .read) = .retEmptyBusy
+        ∨ ∃ c, tAct t st .read (env calls .read) = .raiseS c := by
+      generalize tAct t st .read (env calls .read) = a at hloss
+      cases a <;> simp_all [Act.readLossOK]
+    have raised : ∀ c, tAct t st .read (env calls .read) = .raiseS c →
+        ∃ res c', readStep ⟨.r :: p, st, calls, ticks⟩ .r p (env calls .read) (tAct t st .read (env calls .read))
+            (tNext t st .read (env calls .read)) = .inr res ∧ res.out = .raised c' ∧ c' ≠ .other ∧ res.calls ≤ calls + 1 := by
+      intro c hc
+      refine ⟨⟨.raised c, tNext t st .read (env calls .read), calls + 1, ticks⟩, c, ?_, rfl,
+        readOK_raise_ne_other hrok hc, Nat.le_refl _⟩
+      rw [hc]; simp [readStep, Act.rk, fail_raiseS]
+    by_cases hop : st.opened = true
+    · cases hl : st.lossBy with
+      | none =>
+        rcases hcases with ha | ha | ⟨c, ha⟩
+        · right
+          refine ⟨⟨.r :: p, tNext t st .read (env calls .read), calls + 1, ticks + 1⟩,
+            by rw [ha]; simp [readStep, Act.rk], rfl, rfl, hinv, ?_, by simp [hl],
+            tNext_sets (Or.inl rfl) hop hs⟩
+          rintro (h | ⟨lm, lo, h, _⟩)
+          · rw [hop] at h; cases h
+          · rw [hl] at h; cases h
+        · right
+          refine ⟨⟨.r :: p, tNext t st .read (env calls .read), calls + 1, ticks⟩,
+            by rw [ha]; simp [readStep, Act.rk], rfl, rfl, hinv, ?_, by simp [hl],
+            tNext_sets (Or.inl rfl) hop hs⟩
+          rintro (h | ⟨lm, lo, h, _⟩)
+          · rw [hop] at h; cases h
+          · rw [hl] at h; cases h
+        · left; exact raised c ha
+      | some x =>
+        obtain ⟨lm, lo⟩ := x
+        obtain ⟨hlm, hdl, hsl⟩ := hi lm lo hl
+        have hrow := prompt_rows hp st.ctrl hlm hdl hsl
+        have hmem := @effOutcome_mem t st lm lo (env calls .read) hl (hg.post_ne lm lo hlm hdl hsl)
+        have hact : tAct t st .read (env calls .read) = after2 t st.ctrl lm lo .read (effOutcome t st .read (env calls .read)) := by
+          unfold tAct; simp [hop, hl]
+        unfold promptOK at hrow
+        simp only [hdl, hsl, Bool.and_self, Bool.not_true, Bool.false_or, List.all_eq_true] at hrow
+        have hr := hrow _ hmem
+        simp only [Bool.or_eq_true, Bool.and_eq_true] at hr
+        rcases hr with hr | hr
+        · obtain ⟨c, hc⟩ := isRaiseS_cases hr
+          left; exact raised c (by rw [hact, hc])
+        · rcases hcases with ha | ha | ⟨c, ha⟩
+          · right
+            obtain ⟨⟨⟨⟨heff, hnot⟩, hde⟩, hse⟩, hfin⟩ := hr
+            have hup : eofUpgrade t st .read (env calls .read) = true := by
+              unfold eofUpgrade; simp only [hl]; simp [heff, hnot, hde, hse]
+            have hnext : (tNext t st .read (env calls .read)).lossBy = some (.read, .empty) := by
+              rw [tNext_lossBy_eq]; unfold tNext0; simp [hop, hl, hup]
+            have hctrl : (tNext t st .read (env calls .read)).ctrl = st.ctrl := by
+              simp [tNext, ctrlNext, hl]
+            refine ⟨⟨.r :: p, tNext t st .read (env calls .read), calls + 1, ticks + 1⟩,
+              by rw [ha]; simp [readStep, Act.rk], rfl, rfl, hinv, ?_, ?_, by rw [hnext]; rfl⟩
+            · rintro (h | ⟨lm', lo', h, hf⟩)
+              · rw [hop] at h; cases h
+              · rw [hl] at h; cases h
+                unfold finalOK at hf; simp only [List.all_eq_true] at hf
+                have := hf _ hmem
+                rw [← hact, ha] at this; simp [Act.isRaiseS] at this
+            · intro _; right; exact ⟨.read, .empty, hnext, by rw [hctrl]; exact hfin⟩
+          · exfalso
+            obtain ⟨_, hl', _⟩ := hbusy ha
+            rw [hl] at hl'; cases hl'
+          · left; exact raised c ha
+    · left
+      have : tAct t st .read (env calls .read) = .raiseS .notOpened := by
+        unfold tAct; simp [hop, hg.none_read]
+      exact raised _ this
+
+/-- a settled session state raises at the next read: the second alternative of `read_step_prompt` is excluded -/
+theorem exec_prompt {t : Transport} (hg : Good t) (hp : promptTotal t) {env : Env} (hd : InDomain t env)
+    (T : Nat) (cf : Cfg) (p : Program) (hprog : cf.prog = .r :: p) (hi : InvSt t cf.st)
+    (hdead : DeadFrom t cf.calls env) (n : Nat) :
+    ∃ c, (exec t env T (n + 3) cf).out = .raised c ∧ c ≠ .other ∧ (exec t env T (n + 3) cf).calls ≤ cf.calls + 3 := by
+  have hs0 := (hdead cf.calls (Nat.le_refl _)).1
+  rcases read_step_prompt hg hp hd T cf p hprog hi hs0 with ⟨res, c, h1, h2, h3, h4⟩ | ⟨cf1, h1, hp1, hc1, hi1, _, _, hsome1⟩
+  · refine ⟨c, ?_, h3, ?_⟩ <;> simp only [exec, h1] <;> first | exact h2 | omega
+  · have hs1 := (hdead cf1.calls (by omega)).1
+    rcases read_step_prompt hg hp hd T cf1 p hp1 hi1 hs1 with ⟨res, c, g1, g2, g3, g4⟩ | ⟨cf2, g1, hp2, hc2, hi2, _, hset, _⟩
+    · refine ⟨c, ?_, g3, ?_⟩ <;> simp only [exec, h1, g1] <;> first | exact g2 | omega
+    · have hs2 := (hdead cf2.calls (by omega)).1
+      have hsettled := hset hsome1
+      rcases read_step_prompt hg hp hd T cf2 p hp2 hi2 hs2 with ⟨res, c, k1, k2, k3, k4⟩ | ⟨cf3, _, _, _, _, hns, _, _⟩
+      · refine ⟨c, ?_, k3, ?_⟩ <;> simp only [exec, h1, g1, k1] <;> first | exact k2 | omega
+      · exact absurd hsettled hns
 
 end Scrapli.Loss
